@@ -15,6 +15,7 @@ import AdaptaVerif.Lemmas.VpscModel
 import AdaptaVerif.Lemmas.VpscFeasible
 import AdaptaVerif.Lemmas.VpscFlag
 import AdaptaVerif.Lemmas.VpscHistory
+import AdaptaVerif.Lemmas.VpscFinal
 namespace AdaptaVerif.Props.C01
 open AdaptaVerif.Check.Vpsc AdaptaVerif.Spec.Vpsc AdaptaVerif.Model.Vpsc
 open AdaptaVerif.Lemmas.Vpsc AdaptaVerif.Lemmas.VpscModel
@@ -187,136 +188,120 @@ theorem flag_complete_solve (st st' : St) (pos : Array Rat) (ret : Bool)
 #guard (match exampleSt.satisfy with
         | (st', .ok _ _) => st'.cons.any (·.unsat) && st'.cons.size == 3 | _ => false)
 
-/-! ## flag soundness (inequality-only "flagged ⇒ infeasible") — the step, invariant assumed
+/-! ## (4) block_inv over all histories, eq_post, flag_sound
 
-Full statement (DESIGN.md `flag_sound`): for every inequality-only history, a constraint is flagged only
-if the system known to the solver is infeasible.  Proved here: the flagging *step* is sound in every
-state that satisfies the block invariant (active constraints tight, `out` lists linked) — the
-invariant itself is proved preserved only by `merge` (section 4 below), evaluated on every model state by the
-driver (`St.invOk`), and the real code's flags are validated per run by the certified checker
-(`feasible_sound`: SPECFAIL "flagged but feasible").  The other flagging branch
-(`UnsatisfiableException`: no split point) cannot fire without equalities on the path.
+`Hist st` : `st` is reachable through the public API — `IncSolver(vs, cs)`, `addConstraint`, changing a
+desired position, `satisfy()`, `solve()`, in any order and number — from well-formed input (constraints
+refer to existing variables and are not pre-flagged).
+
+`Inv st` (`Lemmas/VpscInv.lean`, structure `InvC`) is the full block invariant:
+  * `Variable::in/out` hold exactly the constraints entering/leaving the variable;
+  * every active constraint joins two variables of one block and is tight (`offset_r − gap − offset_l = 0`);
+  * the active constraints form a forest (each one is a bridge of the active graph) that spans every
+    block (variables of one block are connected by active constraints): per block, a spanning tree;
+  * every constraint is active, flagged, or on the `inactive` list;
+  * inequality-only: a flagged constraint is justified by a positive-gap cycle.
+The model's loops carry fuel; `fuelOut` records that some loop or traversal ran out of it (the driver
+reports that as a broken tie; it never happened).  A normal return (`.ok`) implies `fuelOut = false`.
 -/
 
-open AdaptaVerif.Lemmas.VpscFlag in
-/-- directed-path branch of `IncSolver::satisfy`: if `isActiveDirectedPathBetween(v.right, v.left)`
-    holds in a state with tight active constraints and `v` is violated, the constraint set has a
-    positive-gap cycle and is infeasible for any non-zero scales. -/
-theorem flag_sound_path_partial (scale : Nat → Rat) (hs : ∀ i, scale i ≠ 0)
-    (st : St) (bid fuel vi : Nat)
-    (hlink : OutsLinked st) (htight : TightActive st) (hmem : st.cons[vi]! ∈ st.cons)
-    (hpath : (isActiveDirectedPathBetween st bid fuel (st.cons[vi]!).r (st.cons[vi]!).l).1 = true)
-    (hviol : st.uval (st.cons[vi]!).r - (st.cons[vi]!).gap - st.uval (st.cons[vi]!).l < 0) :
-    PosCycle (st.cons.toList.map toC) ∧ ¬ Feasible scale (st.cons.toList.map toC) := by
-  have hp := flag_path_sound st bid fuel vi hlink htight hmem hpath hviol
-  exact ⟨hp, cycle_sum scale hs _ hp⟩
+open AdaptaVerif.Lemmas.VpscFinal AdaptaVerif.Lemmas.VpscInv AdaptaVerif.Lemmas.VpscSolve in
+/-- **block_inv**: the block invariant holds in every reachable state (unless the model has reported
+    running out of fuel) — over all histories, all n, m, data. -/
+theorem block_inv (st : St) (h : Hist st) : st.fuelOut = true ∨ Inv st := hist_J h
 
--- executable instance of the hypotheses: merge constraints 0 and 1 of `exampleSt`, then constraint 2
--- (v2 + 1 ≤ v0) is violated, lies in one block, and a directed active path runs from v0 to v2
-#guard (let st := ((exampleSt.mergeAcross 0).1.mergeAcross 1).1
-        let b := (st.vars[0]!).block
-        (isActiveDirectedPathBetween st b 4 0 2).1 &&
-        decide (st.uval 0 - 1 - st.uval 2 < 0) &&
-        st.cons.all (fun c => !c.active || decide (st.uval c.l + c.gap = st.uval c.r)))
+open AdaptaVerif.Lemmas.VpscFinal AdaptaVerif.Lemmas.VpscInv AdaptaVerif.Lemmas.VpscSolve in
+/-- … in particular in the state in which `satisfy` / `solve` return normally. -/
+theorem block_inv_on_return (st st' : St) (pos : Array Rat) (ret : Bool) (h : Hist st)
+    (hs : st.satisfy = (st', .ok pos ret) ∨ st.solve = (st', .ok pos ret)) : Inv st' := by
+  rcases hs with hs | hs
+  · exact (satisfy_final st st' pos ret (hist_J h) hs).inv
+  · exact (solve_final st st' pos ret (hist_J h) hs).inv
 
-/-! ## (4) block invariant — pieces proved so far
+open AdaptaVerif.Lemmas.VpscMerge AdaptaVerif.Lemmas.VpscSplit AdaptaVerif.Lemmas.VpscInv in
+/-- the two structural steps: `merge` across a constraint joining two different blocks, and `split`
+    on an active constraint (the two new blocks are exactly the two components of the active tree minus
+    that edge), preserve the invariant in any state -/
+theorem block_inv_merge_split (st : St) (ci : Nat) (h : Inv st) :
+    (ci < st.cons.size → blk st.vars (st.cons[ci]!).l ≠ blk st.vars (st.cons[ci]!).r →
+      Inv (st.mergeAcross ci).1) ∧
+    ((st.cons[ci]!).active = true →
+      (st.split (blk st.vars (st.cons[ci]!).l) ci).1.fuelOut = false →
+      InvC (st.split (blk st.vars (st.cons[ci]!).l) ci).1.vars
+        (st.split (blk st.vars (st.cons[ci]!).l) ci).1.cons
+        (st.split (blk st.vars (st.cons[ci]!).l) ci).1.blocks.size (st.inactive.push ci)) :=
+  ⟨fun hci hne => mergeAcross_inv st ci h hci hne,
+   fun hact hfo => split_inv st ci h (AdaptaVerif.Lemmas.VpscLoop.active_lt _ _ hact) hact hfo⟩
 
-Full statement (DESIGN.md `block_inv`), kept for reference:
-    in every state reachable by IncSolver operations, for every block the active constraints between
-    its variables form a spanning tree and are tight (`offset_r − gap − offset_l = 0`), equalities are
-    never split, and hence on return every unflagged equality holds exactly.
-Proved: the `merge` step (`Block::merge`) for arbitrary states — it makes the merged constraint tight,
-joins the two blocks, and preserves every intra-block offset difference (so constraints that were
-tight stay tight); plus the two facts that make "tight" meaningful: the slack of an intra-block
-constraint depends on offsets only, and `scale·position` is the block coordinate plus the offset.
-Also proved: `split` leaves all offsets unchanged (`block_inv_split_offsets_partial`) and the invariants
-hold initially and under addConstraint / desired-position changes (`history_inv_partial`).
-Missing: that `split` separates the block exactly along the removed tree edge (the spanning-tree
-part), and hence the induction over all solver steps.  The driver compares active sets with the real code instead,
-and `checkPost` checks unflagged equalities two-sidedly on every real output.
--/
+open AdaptaVerif.Lemmas.VpscFinal AdaptaVerif.Lemmas.VpscSolve in
+/-- **eq_post**: after any history, when `satisfy` or `solve` returns normally, every equality that is
+    not flagged unsatisfiable is active and holds *exactly* at the reported positions
+    (`scale_r·pos_r − gap − scale_l·pos_l = 0`; scales non-zero).  Together with `satisfy_post` this is
+    the first sentence of the property for the model. -/
+theorem eq_post (st st' : St) (pos : Array Rat) (ret : Bool) (h : Hist st)
+    (hs : st.satisfy = (st', .ok pos ret) ∨ st.solve = (st', .ok pos ret))
+    (hsc : ∀ i : Nat, (st'.vars[i]!).scale ≠ 0)
+    (j : Nat) (hj : j < st'.cons.size) (heq : (st'.cons[j]!).eq = true)
+    (hun : (st'.cons[j]!).unsat = false) :
+    (st'.cons[j]!).active = true ∧ slackAt st'.vars pos (st'.cons[j]!) = 0 := by
+  have hF : Final st' ∧ pos = st'.positions := by
+    rcases hs with hs | hs
+    · exact ⟨satisfy_final st st' pos ret (hist_J h) hs, (satisfy_ok st st' pos ret hs).1⟩
+    · exact ⟨solve_final st st' pos ret (hist_J h) hs, (solve_ok st st' pos ret hs).1⟩
+  rw [hF.2]
+  exact ⟨(final_eq hF.1 j hj heq hun).1, final_eq_positions hF.1 hsc j hj heq hun⟩
 
-/-- merge step of `block_inv`: the constraint merged across becomes tight and both ends share a block -/
-theorem block_inv_merge_tight_partial (st : St) (ci : Nat)
-    (hl : (st.cons[ci]!).l < st.vars.size) (hr : (st.cons[ci]!).r < st.vars.size)
-    (hne : (st.vars[(st.cons[ci]!).l]!).block ≠ (st.vars[(st.cons[ci]!).r]!).block) :
-    let c := st.cons[ci]!
-    let st' := (st.mergeAcross ci).1
-    (st'.vars[c.r]!).offset - c.gap - (st'.vars[c.l]!).offset = 0 ∧
-    (st'.vars[c.l]!).block = (st'.vars[c.r]!).block :=
-  mergeAcross_tight st ci hl hr hne
+open AdaptaVerif.Lemmas.VpscFinal AdaptaVerif.Lemmas.VpscSolve AdaptaVerif.Lemmas.VpscFlag in
+/-- **flag_sound** (inequality-only systems): after any history, when `satisfy` or `solve` returns
+    normally, a flagged constraint implies that the constraints known to the solver contain a
+    positive-gap cycle, hence no placement satisfies them (for any non-zero scales). -/
+theorem flag_sound (scale : Nat → Rat) (hscale : ∀ i, scale i ≠ 0)
+    (st st' : St) (pos : Array Rat) (ret : Bool) (h : Hist st)
+    (hs : st.satisfy = (st', .ok pos ret) ∨ st.solve = (st', .ok pos ret))
+    (hineq : ∀ j : Nat, j < st'.cons.size → (st'.cons[j]!).eq = false)
+    (j : Nat) (hj : j < st'.cons.size) (hun : (st'.cons[j]!).unsat = true) :
+    PosCycle (st'.cons.toList.map toC) ∧ ¬ Feasible scale (st'.cons.toList.map toC) := by
+  have hinv := block_inv_on_return st st' pos ret h hs
+  have hp := hinv.flags hineq j hj hun
+  exact ⟨hp, cycle_sum scale hscale _ hp⟩
 
-/-- merge step of `block_inv`: blocks move rigidly — variables that shared a block still do, with the
-    same offset difference (tight constraints stay tight), and constraint data is untouched -/
-theorem block_inv_merge_rigid_partial (st : St) (ci i j : Nat)
-    (hi : i < st.vars.size) (hj : j < st.vars.size)
-    (hsame : (st.vars[i]!).block = (st.vars[j]!).block) :
-    let st' := (st.mergeAcross ci).1
-    ((st'.vars[j]!).offset - (st'.vars[i]!).offset = (st.vars[j]!).offset - (st.vars[i]!).offset ∧
-     (st'.vars[i]!).block = (st'.vars[j]!).block) ∧
-    st'.cons = st.cons.set! ci { st.cons[ci]! with active := true } :=
-  ⟨mergeAcross_preserves st ci i j hi hj hsame, mergeAcross_cons st ci⟩
+open AdaptaVerif.Lemmas.VpscFinal AdaptaVerif.Lemmas.VpscSolve AdaptaVerif.Lemmas.VpscFlag in
+/-- **"flagged iff infeasible" for the model, up to the solver's tolerance** (inequality-only, any
+    history, normal return of `satisfy` or `solve`):
+    (→) if some constraint is flagged, the system is infeasible;
+    (←) if the system contains a cycle whose total gap exceeds `length·|ZERO_UPPERBOUND|`, some
+        constraint on it is flagged. -/
+theorem flagged_iff_infeasible (scale : Nat → Rat) (hscale : ∀ i, scale i ≠ 0)
+    (st st' : St) (pos : Array Rat) (ret : Bool) (h : Hist st)
+    (hs : st.satisfy = (st', .ok pos ret) ∨ st.solve = (st', .ok pos ret))
+    (hineq : ∀ j : Nat, j < st'.cons.size → (st'.cons[j]!).eq = false) :
+    ((∃ j, j < st'.cons.size ∧ (st'.cons[j]!).unsat = true) →
+        ¬ Feasible scale (st'.cons.toList.map toC)) ∧
+    (∀ cyc : List Con, (∀ c ∈ cyc, c ∈ st'.cons) → ClosedWalk (cyc.map conEdge) →
+        (cyc.length : Rat) * (-ZERO_UPPERBOUND) < sumW (cyc.map conEdge) →
+        ∃ c ∈ cyc, c.unsat = true) := by
+  refine ⟨?_, ?_⟩
+  · rintro ⟨j, hj, hun⟩
+    exact (flag_sound scale hscale st st' pos ret h hs hineq j hj hun).2
+  · intro cyc hmem hc hgap
+    rcases hs with hs | hs
+    · exact flag_complete st st' pos ret hs cyc hmem hc hgap
+    · exact flag_complete_solve st st' pos ret hs cyc hmem hc hgap
 
-/-- **merge preserves the offset part of `block_inv`** (every active constraint joins two variables of
-    one block and is tight in offsets), for every state and every constraint merged across. -/
-theorem block_inv_merge_preserved_partial (st : St) (ci : Nat) (hinv : OffsetInv st)
-    (hl : (st.cons[ci]!).l < st.vars.size) (hr : (st.cons[ci]!).r < st.vars.size)
-    (hne : (st.vars[(st.cons[ci]!).l]!).block ≠ (st.vars[(st.cons[ci]!).r]!).block) :
-    OffsetInv (st.mergeAcross ci).1 :=
-  mergeAcross_offsetInv st ci hinv hl hr hne
+-- non-vacuity: a reachable state, a history with an equality that returns normally
+example : AdaptaVerif.Lemmas.VpscFinal.Hist exampleSt :=
+  AdaptaVerif.Lemmas.VpscFinal.Hist.init _ _ (by
+    intro c hc
+    simp only [Array.mem_toArray, List.mem_cons, List.not_mem_nil, or_false] at hc
+    rcases hc with rfl | rfl | rfl <;> simp [mkCon])
 
--- the hypotheses are met e.g. by the initial state of `exampleSt` (no active constraint yet) and
--- its first merge; executable form of the conclusion:
-#guard (let st := (exampleSt.mergeAcross 0).1
-        st.cons.all fun c => !c.active ||
-          ((st.vars[c.l]!).block == (st.vars[c.r]!).block &&
-           decide ((st.vars[c.r]!).offset - c.gap - (st.vars[c.l]!).offset = 0)))
+def exampleEq : St :=
+  St.init #[(3, 1, 1), (0, 1, 2), (5, 1, 1)] #[mkCon 0 1 1 true, mkCon 1 2 1 false]
 
-open AdaptaVerif.Lemmas.VpscHistory in
-/-- split step of `block_inv` (offset part only): `Block::split` / `splitBetween` / `splitBlocks`
-    never change an offset and only clear `active` on the split constraint, so every constraint keeps
-    its offset-slack `offset_r − gap − offset_l` — tight constraints stay tight.  (Missing for the full
-    invariant: that the two new blocks separate exactly along the removed tree edge, i.e. every other
-    active constraint still has both ends in one block; this needs the spanning-tree part.) -/
-theorem block_inv_split_offsets_partial (st : St) (old ci : Nat) :
-    ((st.split old ci).1.vars.size = st.vars.size ∧
-      ∀ i : Nat, ((st.split old ci).1.vars[i]!).offset = (st.vars[i]!).offset) ∧
-    (st.split old ci).1.cons = st.cons.set! ci { st.cons[ci]! with active := false } :=
-  split_offsets st old ci
-
-/-! ## history lemma (partial: every operation except `split`)
-
-Full statement (DESIGN.md "history lemma"): `addConstraint`, changing desired positions and every
-solver step preserve `block_inv`, so the theorems hold after any re-solve.  Proved: the offset
-invariant `OffsetInv` (active ⇒ same block ∧ tight in offsets) and the linking invariant `Linked`
-hold in the state built by the constructor and are preserved by `addConstraint`, by changing a desired
-position and by `merge`.  Missing: preservation by `split` (needs the spanning-tree part).
-Note that `satisfy_post`, `solve_post` and `flag_complete` above need no invariant at all: they hold
-for arbitrary states, hence after arbitrary histories. -/
-
-open AdaptaVerif.Lemmas.VpscHistory AdaptaVerif.Lemmas.VpscFlag in
-theorem history_inv_partial :
-    (∀ vs cs, OffsetInv (St.init vs cs) ∧ Linked (St.init vs cs)) ∧
-    (∀ st c, OffsetInv st ∧ Linked st → OffsetInv (st.addConstraint c) ∧ Linked (st.addConstraint c)) ∧
-    (∀ st i d, OffsetInv st ∧ Linked st → OffsetInv (st.setDesired i d) ∧ Linked (st.setDesired i d)) ∧
-    (∀ st ci, OffsetInv st ∧ Linked st →
-        (st.cons[ci]!).l < st.vars.size → (st.cons[ci]!).r < st.vars.size →
-        (st.vars[(st.cons[ci]!).l]!).block ≠ (st.vars[(st.cons[ci]!).r]!).block →
-        OffsetInv (st.mergeAcross ci).1 ∧ Linked (st.mergeAcross ci).1) :=
-  ⟨fun vs cs => ⟨init_offsetInv vs cs, init_linked vs cs⟩,
-   fun st c h => ⟨addConstraint_offsetInv st c h.1, addConstraint_linked st c h.2⟩,
-   fun st i d h => ⟨setDesired_offsetInv st i d h.1, setDesired_linked st i d h.2⟩,
-   fun st ci h hl hr hne => ⟨mergeAcross_offsetInv st ci h.1 hl hr hne, mergeAcross_linked st ci h.2⟩⟩
-
-open AdaptaVerif.Lemmas.VpscHistory AdaptaVerif.Lemmas.VpscFlag in
-/-- `flag_sound_path_partial` with the invariants `OffsetInv ∧ Linked` (which `history_inv_partial`
-    establishes for all split-free histories) in place of its raw hypotheses -/
-theorem flag_sound_path_inv_partial (scale : Nat → Rat) (hs : ∀ i, scale i ≠ 0)
-    (st : St) (bid fuel vi : Nat) (hinv : OffsetInv st ∧ Linked st) (hmem : st.cons[vi]! ∈ st.cons)
-    (hpath : (isActiveDirectedPathBetween st bid fuel (st.cons[vi]!).r (st.cons[vi]!).l).1 = true)
-    (hviol : st.uval (st.cons[vi]!).r - (st.cons[vi]!).gap - st.uval (st.cons[vi]!).l < 0) :
-    PosCycle (st.cons.toList.map toC) ∧ ¬ Feasible scale (st.cons.toList.map toC) :=
-  flag_sound_path_partial scale hs st bid fuel vi hinv.2.outsLinked (offsetInv_tight hinv.1) hmem hpath hviol
+#guard (match exampleEq.solve with
+        | (st', .ok _ _) => st'.cons.all (fun c => !c.unsat) && st'.invOk | _ => false)
+#guard (match ((exampleEq.solve.1.addConstraint (mkCon 2 0 1 false)).setDesired 0 7).satisfy with
+        | (st', .ok _ _) => st'.cons.any (·.unsat) && st'.invOk | _ => false)
 
 /-- positions inside a block are determined by offsets: the slack of a constraint whose ends share a
     block is `offset_r − gap − offset_l`, whatever the block position -/
